@@ -401,8 +401,8 @@ static void add_base(std::vector<Base> &out, Builder &b, bool valid, const std::
 static void gen_main(std::vector<Base> &out, bool thorough)
 {
   std::vector<int> owners = thorough ? std::vector<int>{ OW_FULL, OW_PTRQ, OW_LABELPTR, OW_ROOT, OW_PTRSUFFIX, OW_CHAIN, OW_LABEL63, OW_SPECIAL, OW_SELFPTR, OW_FWDPTR, OW_MAX255 }
-                                     : std::vector<int>{ OW_FULL, OW_PTRQ, OW_LABELPTR, OW_ROOT, OW_CHAIN, OW_SPECIAL, OW_SELFPTR };
-  std::vector<int> rls    = thorough ? std::vector<int>{ RL_EXACT, RL_MINUS1, RL_PLUS1, RL_PLUS1PAD, RL_ZERO, RL_FFFF } : std::vector<int>{ RL_EXACT, RL_MINUS1, RL_PLUS1, RL_ZERO };
+                                     : std::vector<int>{ OW_FULL, OW_PTRQ, OW_ROOT, OW_CHAIN, OW_SPECIAL, OW_SELFPTR };
+  std::vector<int> rls    = thorough ? std::vector<int>{ RL_EXACT, RL_MINUS1, RL_PLUS1, RL_PLUS1PAD, RL_ZERO, RL_FFFF } : std::vector<int>{ RL_EXACT, RL_MINUS1, RL_PLUS1 };
   for (auto &sp : SPECS) {
     for (int sh = 0; sh < sp.nshapes; sh++) {
       if (sp.type == 16 && sh == 4 && !thorough) continue; // 255-byte TXT chunk only in thorough
@@ -412,7 +412,7 @@ static void gen_main(std::vector<Base> &out, bool thorough)
             if (!thorough) { // quick: answer section; OPT additionally where it belongs; SOA in authority
               bool keep = sect == 0 || (sp.type == 41 && sect == 2) || (sp.type == 6 && sect == 1 && ow == OW_PTRQ);
               if (!keep) continue;
-            }
+            } else if (sect != 0 && !(rl == RL_EXACT || rl == RL_MINUS1 || rl == RL_PLUS1)) continue; // authority/additional: 3 RDLENGTH variants
             bool    tail  = (rl == RL_MINUS1 || rl == RL_PLUS1);
             bool    chain = ow == OW_CHAIN;
             Builder b;
@@ -815,9 +815,45 @@ static void gen_multi(std::vector<Base> &out)
   }
 }
 
+// lengths that need both bytes of a 16-bit length field
+static void gen_long(std::vector<Base> &out)
+{
+  {
+    Builder b;
+    b.header(21, 0x8180, 1, 1, 0, 1);
+    b.question(L("www.example.com"), 1, 1);
+    rr_a(b, Labels(), QNAME, 60, 0x01020304UL);
+    b.name(Labels());
+    size_t rp = b.rr_fixed(41, 4096, 0x8000);
+    b.u16(12); // padding option of 300 bytes
+    b.u16(300);
+    for (int i = 0; i < 300; i++) b.u8((unsigned)(i & 0xff));
+    b.u16(10);
+    b.u16(8);
+    b.raw(std::string("COOKIE!!", 8));
+    b.rr_close(rp);
+    add_base(out, b, true, "long OPT option of 300 bytes + cookie");
+  }
+  {
+    Builder b;
+    b.header(22, 0x8180, 1, 1, 0, 0);
+    b.question(L("www.example.com"), 65, 1);
+    b.name(Labels(), QNAME);
+    size_t rp = b.rr_fixed(65, 1, 60);
+    b.u16(1);
+    b.name(Labels());
+    b.u16(5); // ech, 260 bytes
+    b.u16(260);
+    for (int i = 0; i < 260; i++) b.u8((unsigned)(255 - (i & 0xff)));
+    b.rr_close(rp);
+    add_base(out, b, true, "long HTTPS SvcParam of 260 bytes");
+  }
+}
+
 void gen_rr_bases(std::vector<Base> &out, bool thorough)
 {
   gen_multi(out);
+  gen_long(out);
   gen_question(out);
   gen_main(out, thorough);
   gen_header(out, thorough);
